@@ -22,7 +22,7 @@ PROP = {
              "decimals set through SetPrices (positive, missing round, zero price; one asset has no oracle token), 1-3 AVSs (+ the dogfood AVS) with random "
              "asset lists (rarely an unregistered asset id), epoch identifier minute/hour/day/week, starting epoch at num / num+1 (boundary) / num+2 / "
              "random, registered through UpdateAVSInfo or SetAVSInfo, real OptIn of random operators, then minimum self delegation set to 0 / small / "
-             "floor(self value) of some operator -1/0/+1 / huge; 1-3 epoch ends per case, each preceded by ledger / price changes and opt-in or opt-out, "
+             "floor(self value) of some operator -1/0/+1 / huge; 1-3 epoch ends per case, each preceded by ledger / price changes and opt-in or opt-out, and (one time in three) by a change of an AVS's supported-asset list to the empty list or another subset (UpdateAVSInfo UpdateAction or SetAVSInfo) whose identifier then ends next, "
              "triggered either through OperatorKeeper.EpochsHooks().AfterEpochEnd(identifier, number) or through the real x/epochs BeginBlocker (61 s / "
              "3601 s / 86401 s later, every subscribed hook runs); the directed AVS-address-case regression scenario comes first; OptIn calls (a quarter of them, and all attempts with another letter case of the AVS address) are recorded with the rows before/after; distinct = distinct sha1 of the case; "
              "non-trivial = at least one trigger changed a stored value"),
